@@ -15,6 +15,22 @@ const STRS: [&str; 14] = [
     "a", "test", "Owain", "X", "", "MID_A", "カタ", "ひらがな", "ｱｲ", "Severa", "x y", "A", "ab", "ン",
 ];
 const LBLS: [&str; 8] = ["L", "Count", "Info", "X", "", "ラベル", "test", "M"];
+/// C03/C04 are in-memory properties: strings, labels and pending c-strings are opaque there, so they are
+/// also drawn from all of Unicode — characters Shift-JIS maps one way (U+00A5 -> `\`, U+203E -> `~`,
+/// U+2212 -> U+FF0D) next to the strings they would collide with, unencodable characters, combining
+/// marks next to the precomposed form, width variants, BOM / bidi / control characters, strings that
+/// differ only in case or trailing space, and lengths around 255/256 bytes.
+const WILD: [&str; 30] = [
+    "\u{a5}100", "\\100", "\u{203e}", "~", "a\u{2212}b", "a\u{ff0d}b", "\u{a5}", "\\",
+    "\u{e9}", "e\u{301}", "\u{2713}", "\u{1f600}", "\u{1f600}\u{1f600}", "\u{3a9}\u{43c}\u{435}\u{433}\u{430}", "\u{ff41}", "a ",
+    " a", "A\u{0}B", "\u{feff}x", "\u{202e}abc", "x\ny", "\t", "\u{7f}", "\u{80}",
+    "\u{fffd}", "\u{e000}", "\u{10ffff}", "\u{5c}\u{a5}\u{5c}", "\u{203e}\u{7e}\u{203e}", "\u{2212}\u{2212}",
+];
+fn long_string(n: usize, tail: &str) -> String {
+    let mut s: String = (0..n).map(|i| (b'a' + (i % 26) as u8) as char).collect();
+    s.push_str(tail);
+    s
+}
 
 fn huge() -> Vec<u64> {
     let mut v = Vec::new();
@@ -343,11 +359,31 @@ impl G {
             self.rng.below(17)
         }
     }
+    fn wild(&mut self) -> String {
+        match self.rng.below(40) {
+            // encoded length crossing 255 / 256 bytes, with a multi-byte character straddling the boundary
+            0 => long_string(254, "\u{a5}"),
+            1 => long_string(255, "\u{3042}"),
+            2 => long_string(256, ""),
+            3 => long_string(300, "\u{2212}"),
+            _ => self.rng.pick(&WILD[..]).to_string(),
+        }
+    }
     fn string(&mut self) -> String {
-        hexs(*self.rng.pick(&STRS[..]))
+        if self.rng.chance(2, 5) {
+            let w = self.wild();
+            hexs(&w)
+        } else {
+            hexs(*self.rng.pick(&STRS[..]))
+        }
     }
     fn label(&mut self) -> String {
-        hexs(*self.rng.pick(&LBLS[..]))
+        if self.rng.chance(1, 3) {
+            let w = self.wild();
+            hexs(&w)
+        } else {
+            hexs(*self.rng.pick(&LBLS[..]))
+        }
     }
     fn value(&mut self, ty: &str) -> i64 {
         let r = self.rng.next();
@@ -796,10 +832,11 @@ fn setup_lines(cells: u64, ats: &[Atom]) -> Vec<String> {
     }
     for (i, a) in ats.iter().enumerate() {
         v.push(match a.0 {
-            0 => format!("w_str {} {}", a.1, hexs(["s", "t", "u"][i % 3])),
+            0 => format!("w_str {} {}", a.1, hexs(["s", "\u{203e}", "~"][i % 3])),
             1 => format!("w_ptr {} {}", a.1, a.2),
-            2 => format!("w_label {} {}", a.1, hexs(["L", "M", "N"][i % 3])),
-            _ => format!("w_cstr {} {}", a.1, hexs(["c", "d", "c"][i % 3])),
+            2 => format!("w_label {} {}", a.1, hexs(["L", "a\u{2212}b", "a\u{ff0d}b"][i % 3])),
+            // the same string twice (one bucket, two uses), a one-way character and its collision partner
+            _ => format!("w_cstr {} {}", a.1, hexs([["c", "\u{a5}1", "c"], ["\u{a5}1", "\\1", "\u{a5}1"], ["\u{e9}", "c", "\u{2212}"]][(a.1 as usize / 4 + ats.len()) % 3][i % 3])),
         });
     }
     v
